@@ -8,6 +8,7 @@ import (
 	"fmt"
 	"runtime"
 	"sync"
+	"sync/atomic"
 )
 
 // Interface is a type that performs an operation on itself, returning any error.
@@ -22,6 +23,7 @@ type Processor struct {
 	stop    chan struct{}
 	work    chan struct{}
 	threads int
+	running int32
 	wg      *sync.WaitGroup
 }
 
@@ -39,6 +41,7 @@ func NewProcessor(queue chan Operator, buffer int, threads int) (p *Processor) {
 		stop:    make(chan struct{}),
 		work:    make(chan struct{}, threads),
 		threads: threads,
+		running: int32(threads),
 		wg:      &sync.WaitGroup{},
 	}
 	for i := 0; i < threads; i++ {
@@ -56,7 +59,7 @@ func NewProcessor(queue chan Operator, buffer int, threads int) (p *Processor) {
 				}
 				p.work <- struct{}{}
 				vstep(p, "proc.token_returned")
-				if len(p.work) == p.threads {
+				if atomic.AddInt32(&p.running, -1) == 0 {
 					close(p.out)
 				}
 				p.wg.Done()
